@@ -1,6 +1,7 @@
 package main
 
 import (
+	"encoding/json"
 	"flag"
 	"fmt"
 	"os"
@@ -21,6 +22,31 @@ var thoroughArches = []string{"amd64", "386", "arm", "arm64", "ppc64le", "s390x"
 func main() {
 	if len(os.Args) > 1 && os.Args[1] == "dump" {
 		dumpMain(os.Args[2:])
+		return
+	}
+	if len(os.Args) > 1 && os.Args[1] == "knownfuncs" {
+		// prints the reference list of declared functions (ref/known_funcs.json)
+		noSrcInline = true
+		w, err := Load(repoDir(), "amd64")
+		if err != nil {
+			fmt.Fprintln(os.Stderr, err)
+			os.Exit(2)
+		}
+		all := map[string]string{}
+		for _, a := range thoroughArches {
+			ww := w
+			if a != "amd64" {
+				if ww, err = Load(repoDir(), a); err != nil {
+					fmt.Fprintln(os.Stderr, err)
+					os.Exit(2)
+				}
+			}
+			for k, sig := range declaredFuncs(ww.All) {
+				all[k] = sig
+			}
+		}
+		b, _ := json.MarshalIndent(all, "", " ")
+		fmt.Println(string(b))
 		return
 	}
 	if len(os.Args) > 1 && os.Args[1] == "manifest" {
@@ -76,6 +102,11 @@ func runProp(prop, tier, out string, fn propFn, quiet bool) int {
 		}
 		r.W = w
 		r.Arches = append(r.Arches, a)
+		if a == arches[0] {
+			for _, n := range w.Inlined {
+				r.Notes = append(r.Notes, "normalisation: "+n)
+			}
+		}
 		func() {
 			defer func() {
 				if e := recover(); e != nil {
